@@ -18,7 +18,17 @@ use stats::{RunReport, Stats};
 use std::io::Write;
 
 pub const DEFAULT_SEED: u64 = 20261002;
-pub const REPLAY_DIR: &str = "/verif/replays";
+/// root of the verification tree; `./check` exports its own directory so that a snapshot of
+/// /verif run from elsewhere keeps its build output, evidence and replays to itself
+pub fn root() -> String {
+    // cached before the worker wipes its real environment (see world::real_env_init)
+    static ROOT: std::sync::OnceLock<String> = std::sync::OnceLock::new();
+    ROOT.get_or_init(|| std::env::var("VERIF_ROOT").unwrap_or_else(|_| "/verif".to_string()))
+        .clone()
+}
+pub fn replay_dir() -> String {
+    format!("{}/replays", root())
+}
 /// C11: every n-th run also spawns real child processes (0 = never)
 pub static REAL_EVERY: std::sync::atomic::AtomicU64 = std::sync::atomic::AtomicU64::new(0);
 
@@ -211,6 +221,7 @@ fn arg<'a>(args: &'a [String], name: &str) -> Option<&'a str> {
 }
 
 fn init_sim() {
+    world::real_env_init(&gen::all_env_names());
     world::install();
     exec::install_panic_hook();
 }
@@ -262,10 +273,10 @@ fn worker(args: &[String]) -> i32 {
         }
         // one raw case per distinct failure key and worker is plenty
         if let Some(v) = rep.violation.as_ref().filter(|v| seen_keys.insert(v.key.clone())) {
-            let _ = std::fs::create_dir_all(REPLAY_DIR);
+            let _ = std::fs::create_dir_all(replay_dir());
             let path = format!(
                 "{}/raw-{}-{}-{}-{}.json",
-                REPLAY_DIR,
+                replay_dir(),
                 prop,
                 seed,
                 pass.name(),
@@ -421,6 +432,7 @@ fn gen_cmd(args: &[String]) -> i32 {
 }
 
 fn main() {
+    let _ = root();
     let args: Vec<String> = std::env::args().skip(1).collect();
     let code = match args.first().map(|s| s.as_str()) {
         Some("worker") => worker(&args[1..]),
